@@ -1,0 +1,31 @@
+//go:build verif
+
+package rockredis
+
+import "github.com/youzan/ZanRedisDB/common"
+
+// Exported wrappers of the unexported scan range builders and scan constants, for the
+// verification harness (/verif, property C13). Built only with -tags verif; every function is a
+// single call, no behaviour of its own.
+
+// VerifScanConsts returns the constants the scan code depends on.
+func VerifScanConsts() map[string]int64 {
+	return map[string]int64{
+		"default_scan_count": int64(defaultScanCount),
+		"max_batch_num":      int64(MAX_BATCH_NUM),
+	}
+}
+
+func VerifCheckScanCount(count int) int { return checkScanCount(count) }
+
+func VerifGetDataStoreType(dataType common.DataType) (byte, error) {
+	return getDataStoreType(dataType)
+}
+
+func VerifBuildScanKeyRange(storeDataType byte, key []byte, reverse bool) ([]byte, []byte, error) {
+	return buildScanKeyRange(storeDataType, key, reverse)
+}
+
+func VerifBuildSpecificDataScanKeyRange(storeDataType byte, table, key, cursor []byte, reverse bool) ([]byte, []byte, error) {
+	return buildSpecificDataScanKeyRange(storeDataType, table, key, cursor, reverse)
+}
